@@ -29,6 +29,8 @@ let parse_op (o : string) : lop option =
     | ["nP"] -> Some (LProbe PPop3)
     | [a; "S"] when a.[0] = 'o' -> Some (LOpen (num (rest_of a), PSmtp))
     | [a; "P"] when a.[0] = 'o' -> Some (LOpen (num (rest_of a), PPop3))
+    | [a; "S"] when a.[0] = 'A' -> Some (LAcceptHold (num (rest_of a), PSmtp))
+    | [a; "P"] when a.[0] = 'A' -> Some (LAcceptHold (num (rest_of a), PPop3))
     | [a] when a.[0] = 'O' -> Some (LOpenHeld (num (rest_of a), PSmtp))
     | [a; "S"] when a.[0] = 'O' -> Some (LOpenHeld (num (rest_of a), PSmtp))
     | [a; "P"] when a.[0] = 'O' -> Some (LOpenHeld (num (rest_of a), PPop3))
@@ -42,7 +44,7 @@ let parse_op (o : string) : lop option =
 
 let tok (x : lobs) : string =
   match x with
-  | XDropped -> "dropped" | XDot -> "." | XQ -> "?" | XRefused -> "refused" | XHeld -> "held" | XAccepted -> "accepted"
+  | XParked -> "parked" | XDropped -> "dropped" | XDot -> "." | XQ -> "?" | XRefused -> "refused" | XHeld -> "held" | XAccepted -> "accepted"
   | XCode c -> string_of_int (int_of_nat c)
   | XOk -> "+OK"
   | XFinS (d, q, n) ->
@@ -52,7 +54,7 @@ let tok (x : lobs) : string =
 
 let parse_obs (t : string) : lobs =
   match t with
-  | "dropped" -> XDropped | "." -> XDot | "?" -> XQ | "refused" -> XRefused | "held" -> XHeld | "accepted" -> XAccepted
+  | "parked" -> XParked | "dropped" -> XDropped | "." -> XDot | "?" -> XQ | "refused" -> XRefused | "held" -> XHeld | "accepted" -> XAccepted
   | "+OK" -> XOk | "returned" -> XReturned | "blocked" -> XBlocked | "joined" -> XJoined | "ok" -> XFine
   | _ ->
     (try
@@ -76,6 +78,7 @@ let verdict_string ops (v : lverdict) : string =
   | LVAcceptedAfterShutdown k -> "fail:connection-accepted-after-shutdown-at-" ^ at k
   | LVSessionDisturbed k -> "fail:open-session-did-not-get-the-reply-its-dialogue-entitles-it-to-at-" ^ at k
   | LVDrainEarly k -> "fail:drain-returned-while-an-accepted-session-is-alive-at-" ^ at k
+  | LVDrainUncounted k -> "fail:drain-returned-while-an-accepted-connection-was-not-yet-counted-at-" ^ at k
   | LVDrainStuck k -> "fail:drain-did-not-return-with-no-session-alive-at-" ^ at k
   | LVFinal k -> "fail:shutdown-does-not-end:" ^ (List.nth ["smtp-drain"; "pop3-drain"; "retention-join"; "hub-sync"; "hub-late-ops"] (int_of_nat k))
 
